@@ -9,6 +9,7 @@ import TexcraftModel.Model.C17NL
 * `sc v ds`          → `M=<int|panic> S=<int|abort>` (`toScaled`, `storeScaled`)
 * `cp max n v…`      → `ok k t… m (v i)…` or `panic` (`compress`)
 * `cpchk max n v… k t… m (v i)…` → `le=<0/1> near=<0/1> min=<0/1>` (`checkCompress` on a claimed result)
+* `tfm kind n v…` → `ok k t… n i…` or `panic` (`remapDim`: one dimension of `tfm::File::from(pl_file)`)
 * `tfchk kind n v… k t… m (v i)…` → `le=… near=… min=… zero=…` (`checkTfmTable`: a TFM dimension table read back
   from a serialised file against the true PLtoTF limit 255/15/15/63 of `kind` 0..3)
 * `nl drop k ne… n (s l)…` → `w (s l)… ; loops (c d)… ; chains (c len d…)… | T | same` where the first part is
@@ -80,6 +81,17 @@ def handle (line : String) : String :=
           | none => "bad-request"
         | _ => "bad-request"
       | none => "bad-request"
+    | _ => "bad-request"
+  | "tfm" :: ws =>
+    -- `tfm kind n v…` → `ok k t… n i…` (`remapDim`: table and the index of every character) or `panic`
+    match ints? ws with
+    | some (kind :: rest) =>
+      match takeList rest with
+      | some (vals, []) =>
+        match remapDim kind.toNat vals with
+        | .ok (t, idx) => s!"ok {showInts ((t.length : Int) :: t)} {showInts ((idx.length : Int) :: idx.map Int.ofNat)}"
+        | .panic => "panic"
+      | _ => "bad-request"
     | _ => "bad-request"
   | "tfchk" :: ws =>
     -- `tfchk kind n v… k t… m (v i)…` → `le near min zero` for the true PLtoTF limit of `kind`
